@@ -1,11 +1,13 @@
 #!/bin/sh
-# tools/try_seed.sh <patch.diff> <check id> [more check args]  -- apply a seeded change to /repo, run a check, undo
+# tools/try_seed.sh <patch.diff> <check id> [more check args]
+# apply a seeded change to a scratch worktree of /repo's HEAD (outside /repo and /verif), run the check against it, remove the worktree.
 patch="$1"; shift
-cd /repo || exit 2
-if ! git apply --check "$patch" 2>/dev/null; then echo "PATCH-DOES-NOT-APPLY $patch"; exit 3; fi
-git apply "$patch" || exit 3
+wt=/tmp/seedwt_$$
+git -C /repo worktree add -q --detach "$wt" HEAD || exit 2
+if ! git -C "$wt" apply --check "$patch" 2>/dev/null; then echo "PATCH-DOES-NOT-APPLY $patch"; git -C /repo worktree remove --force "$wt"; exit 3; fi
+git -C "$wt" apply "$patch"
 cd /verif
-./check "$@"; rc=$?
-cd /repo && git checkout -q -- . && git status --short | grep -v '^??' 
+VF_REPO="$wt" ./check "$@"; rc=$?
+git -C /repo worktree remove --force "$wt"
 echo "rc=$rc"
 exit $rc
